@@ -285,7 +285,11 @@ fn invert_magnitudes<T: Tier>(rep: &mut Report) {
             eq_v::<T, 4>(ctx, &key("invert/magnitudes/left-identity"), qa(inv * cq), e2);
             // and the action of a non-unit quaternion is still the formula, of its inverse the inverse formula's
             let v: [T; 3] = vec_from_r(&alphabet::generic(3, 1));
-            eq_v::<T, 3>(ctx, &key("mul_vector/formula/magnitudes"), v3(cq * mk_v3(v)), formula(mq, lift_v(v)));
+            // (normwise: an algebraically equal form - (1 - 2|qv|^2) v + 2 (qv.v) qv + 2 s qv x v - cancels terms of size
+            // |q|^2 |v| in a component where this formula has structural zeros)
+            let floor = 4.0 * (1.0 + mq.iter().map(|x| x.approx() * x.approx()).sum::<f64>()) * v.iter().map(|x| x.f() * x.f()).sum::<f64>().sqrt();
+            let want = formula(mq, lift_v(v)).map(|x| x.with_abs_err(floor));
+            eq_v::<T, 3>(ctx, &key("mul_vector/formula/magnitudes"), v3(cq * mk_v3(v)), want);
         },
     );
 }
